@@ -54,6 +54,20 @@ func refBytesEq(a, b []byte) bool {
 	return true
 }
 
+// refBytesSame: like refBytesEq but branch-free over the bytes (one symbolic conjunction instead of a
+// fork per byte): cheaper when many short symbolic fields are concatenated (collections), more
+// expensive when each byte hides heavy arithmetic (dates, vints), where refBytesEq is used.
+func refBytesSame(a, b []byte) bool {
+	if len(a) != len(b) {
+		return false
+	}
+	eq := true
+	for i := range a {
+		eq = vAnd(eq, a[i] == b[i])
+	}
+	return eq
+}
+
 // refFloorDiv: mathematical floor(a/b) for b > 0.
 func refFloorDiv(a, b int64) int64 {
 	q := a / b
